@@ -250,6 +250,12 @@ static bool upipe_row_join_handle(struct upipe *upipe, struct uref *uref,
         uref_clock_set_duration(ctx->output_uref, ctx->output_duration);
     }
 
+    if (unlikely(!ctx->output_uref)) {
+        upipe_verbose(upipe, "dropping chunk without a picture in progress");
+        uref_free(uref);
+        return true;
+    }
+
     size_t width, height;
     uref_pic_size(uref, &width, &height, NULL);
     int ret = ubuf_pic_blit(ctx->output_uref->ubuf, uref->ubuf, 0, vpos, 0, 0, width, height, 0, 0);
